@@ -137,7 +137,7 @@ theorem precommitted_chain (hs : Hs D) (s : St D) (h : InvLog hs s) :
 namespace Stale
 open Witness
 
-def own (ts : Nat) : Op Digest := .own ⟨ts, [], [ent], false, true, zeroD⟩
+def own (ts : Nat) : Op Digest := .own ⟨ts, [], [ent], false, true⟩
 
 /-- external commit allowance; 1A precommitted and discarded; branch B = 1B, 2B precommitted;
 close/open (only 1A, the first record, is reloaded; 1B and 2B are stale records behind it);
